@@ -279,7 +279,13 @@ func loopFacts(s *src, f *facts) {
 	if fl != nil {
 		for _, c := range s.callsTo(fl.Body, "WithValue") {
 			if len(c.Args) == 3 && s.str(c.Args[1]) == "RemoteIDContextKey" && s.str(c.Args[2]) == "remoteID" {
+				// attached for EVERY request: the only condition it may sit under is the parameter-position test
 				ctxOK = true
+				for _, i := range all[*ast.IfStmt](fl.Body, nil) {
+					if contains(i, c) && !contains(i.Cond, c) && s.str(i.Cond) != "i == 0" {
+						ctxOK = false
+					}
+				}
 			}
 		}
 	}
